@@ -126,21 +126,30 @@ func runCalibration() error {
 	return nil
 }
 
-func calibBIP340() error {
+// readBIP340 returns the data rows of the BIP340 vector file.
+func readBIP340() ([][]string, error) {
 	f, err := os.Open(filepath.Join(corpusDir(), "bip340_vectors.csv"))
 	if err != nil {
-		return err
+		return nil, err
 	}
 	defer f.Close()
 	rows, err := csv.NewReader(f).ReadAll()
 	if err != nil {
-		return err
+		return nil, err
 	}
 	if len(rows) < 10 {
-		return fmt.Errorf("bip340 csv: only %d rows", len(rows))
+		return nil, fmt.Errorf("bip340 csv: only %d rows", len(rows))
+	}
+	return rows[1:], nil
+}
+
+func calibBIP340() error {
+	rows, err := readBIP340()
+	if err != nil {
+		return err
 	}
 	signed := 0
-	for _, r := range rows[1:] {
+	for _, r := range rows {
 		sk, pk, aux, msg, sig, want, rfc := r[1], unhex(r[2]), r[3], unhex(r[4]), unhex(r[5]), r[6] == "TRUE", r[7] == "1"
 		if got := secp.VerifySchnorr(pk, msg, sig); got != want {
 			return fmt.Errorf("bip340 row %s: VerifySchnorr=%v, vector says %v", r[0], got, want)
